@@ -7,7 +7,7 @@ fixed-tendon spring} x gravity {on, off}; no damping / friction / actuation / co
 Static part (full state lattice): energy[1] == 1/2 v'Mv; energy[0] == gravity + spring potential recomputed in
 numpy; (qfrc_spring - qfrc_bias|v=0) == -d energy[0] / dq by central differences along every dof.
 Dynamic part (initial-state lattice, RK4, horizon 0.5 s, h in {4,2,1,.5} ms): drift e(h) = max_t |E(t)-E(0)| must
-shrink with order >= 3 (e(h)/e(h/2) >= 8) whenever it is above the round-off floor; without gravity the linear and
+shrink with fitted order >= 3 (on average e(h)/e(h/2) >= 8) over the step sizes where it is above the round-off floor; without gravity the linear and
 angular momentum (numpy, about the world origin) of every free-floating tree drift with order >= 3 as well, and the
 engine's subtree_linvel*mass / subtree_angmom agree with the numpy momenta.
 """
@@ -41,6 +41,8 @@ HS = [0.004, 0.002, 0.001, 0.0005]
 HORIZON = 0.5
 SAMPLE_DT = 0.004         # energy of the actual state sampled at the same physical times for every h
 MIN_RATIO = 8.0
+CUT_MARGIN = 0.3          # rad
+MIN_ORDER = 3.0           # log2(MIN_RATIO)
 FLOOR_REL = 1e-9           # floor = FLOOR_REL * energy scale (round-off over <=1000 RK4 steps is ~1e-13 * scale)
 TOL = 1e-9
 FD_EPS = 1e-5
@@ -74,7 +76,7 @@ def build(par, js, spring, gravity):
         if len(scal) < 1:
             return None
         j2 = scal[1] if len(scal) > 1 else None
-        sections = '<tendon><fixed name="t0" stiffness="2.5 0.5" springlength="0.1"><joint joint="%s" coef="1.3"/>%s</fixed></tendon>\n' % (
+        sections = '<tendon><fixed name="t0" stiffness="0.6 0 0.3" springlength="0.1"><joint joint="%s" coef="1.3"/>%s</fixed></tendon>\n' % (
             scal[0], '<joint joint="%s" coef="-0.7"/>' % j2 if j2 else "")
     opt = A.option_elem(timestep=HS[0], integrator="RK4", gravity="0 0 -9.81" if gravity else "0 0 0", flags={"energy": "enable"})
     return U.std_tree_xml(par, js, jattr=jattr, sections=sections, option=opt)
@@ -225,6 +227,10 @@ def simulate(lib, m, d, mi, q0, v0, h, free_roots):
     d.qpos[:] = q0
     d.qvel[:] = v0
     en = d.energy
+    qs = np.array(m.qpos_spring)
+    sprung = [mi.jnt_qposadr[j] + (3 if mi.jnt_type[j] == U.FREE else 0) for j in range(mi.njnt)
+              if mi.jnt_type[j] in (U.FREE, U.BALL) and (float(m.jnt_stiffness[j]) != 0 or np.any(np.array(m.jnt_stiffnesspoly).reshape(-1, U.NPOLY)[j]))]
+    angmax = 0.0
     E0 = None
     Tmax = 0.0
     Vmin = math.inf
@@ -242,6 +248,10 @@ def simulate(lib, m, d, mi, q0, v0, h, free_roots):
             Vmin = min(Vmin, e0)
             Vmax = max(Vmax, e0)
             emax = max(emax, abs(e0 + e1 - E0))
+            if sprung:
+                q = np.array(d.qpos)
+                for a in sprung:
+                    angmax = max(angmax, float(np.linalg.norm(U.quat_sub(q[a:a + 4], qs[a:a + 4]))))
             if free_roots and s % (5 * sample_every) == 0:
                 lib.mj_subtreeVel(m, d)
                 mm = momenta(lib, m, mi, d)
@@ -251,7 +261,7 @@ def simulate(lib, m, d, mi, q0, v0, h, free_roots):
             step(m, d)
     if int(np.array(d.warning)["number"].sum()):
         return None
-    return dict(emax=emax, scale=max(1e-3, Tmax + (Vmax - Vmin)), mom=mom)
+    return dict(emax=emax, scale=max(1e-3, Tmax + (Vmax - Vmin)), mom=mom, angmax=angmax)
 
 
 def _stat(row):
@@ -271,20 +281,24 @@ def converges(errs, floor):
 
 
 def order_ok(errs, floor):
-    """errs for HS; returns (verdicts, n_floor_excluded): each consecutive pair above the floor must have ratio >= MIN_RATIO."""
-    bad = []
-    nfloor = 0
-    ntested = 0
-    for i in range(len(errs) - 1):
-        if errs[i] <= floor:
-            nfloor += 1
-            continue
-        ntested += 1
-        if errs[i + 1] <= floor:
-            continue          # dropped below the floor: ratio is at least errs[i]/floor, cannot be judged more finely
-        if errs[i] / errs[i + 1] < MIN_RATIO:
-            bad.append((HS[i], errs[i], errs[i + 1]))
-    return bad, nfloor, ntested
+    """errs for HS. The observed order p is the least-squares slope of log2(drift) against log2(h) over the step sizes whose
+    drift is above the floor (a single pair reduces to log2 of the ratio); p >= MIN_ORDER is required, i.e. on average
+    e(h)/e(h/2) >= 8. A fit is used because the maximum drift over the horizon is not a smooth function of h and isolated pairs
+    show cancellation. Returns ([(h_first, e_first, e_last, p)] if violated, number of floor-excluded pairs, number of judged pairs)."""
+    idx = [i for i, e in enumerate(errs) if e > floor]
+    # only a contiguous run starting at the coarsest above-floor step is meaningful (errors decrease with h)
+    run = []
+    for i in idx:
+        if not run or i == run[-1] + 1:
+            run.append(i)
+    nfloor = (len(errs) - 1) - max(0, len(run) - 1)
+    if len(run) < 2:
+        return [], nfloor, 0
+    x = np.log2([HS[i] for i in run])
+    y = np.log2([errs[i] for i in run])
+    p = float(np.polyfit(x, y, 1)[0])
+    bad = [(HS[run[0]], errs[run[0]], errs[run[-1]], p)] if p < MIN_ORDER else []
+    return bad, nfloor, len(run) - 1
 
 
 NINIT = [2]
@@ -348,6 +362,11 @@ def dynamic_checks(lib, part, m, d, mi, ident, xml, gravity_on, spring, par, js)
         if any(r is None for r in res):
             part.add("diverged_skipped")
             continue
+        if max(r["angmax"] for r in res) > math.pi - CUT_MARGIN:
+            # a sprung ball/free joint comes close to a relative rotation of pi, where the spring potential 1/2 k theta^2 has a cusp:
+            # the dynamics are not smooth there and no integrator keeps its order
+            part.add("boundary_excluded_cutlocus")
+            continue
         scale = max(r["scale"] for r in res)
         errs = [r["emax"] for r in res]
         floor = FLOOR_REL * scale
@@ -358,10 +377,11 @@ def dynamic_checks(lib, part, m, d, mi, ident, xml, gravity_on, spring, par, js)
         key = (par, js, spring, gravity_on, ii) if ntested else None
         part.count(1, key=key, sample={"parents": par, "joints": js, "spring": spring, "gravity": gravity_on, "qpos": q0, "qvel": v0,
                                        "energy_drift": errs} if (ntested == 3 and ii == 0) else None)
-        for hb, e1, e2 in bad:
+        _stat({"kind": "order", "ident": ident, "quat": bool(mi.quat_adr), "p": (bad[0][3] if bad else None), "errs": errs, "floor": floor})
+        for hb, e1, e2, p in bad:
             k = KEY_RK4_QUAT if (mi.quat_adr and converges(errs, floor)) else "energy drift order < 3 %s" % ident
-            part.violation(k, "RK4 energy drift e(h=%g)=%.3g, e(h/2)=%.3g: ratio %.2f < %g (drifts %s, floor %.2g) init %d (%s)" % (
-                hb, e1, e2, e1 / e2, MIN_RATIO, errs, floor, ii, ident), rp)
+            part.violation(k, "RK4 energy drift over %g s shrinks with observed order %.2f < %g under timestep refinement: drifts %s for h=%s "
+                           "(floor %.2g) init %d (%s)" % (HORIZON, p, MIN_ORDER, ["%.3g" % e for e in errs], HS, floor, ii, ident), rp)
         # momentum
         for b in free_roots:
             perr, lerr = [], []
@@ -394,10 +414,10 @@ def dynamic_checks(lib, part, m, d, mi, ident, xml, gravity_on, spring, par, js)
                 part.add("momentum_pairs_tested", ntested)
                 if ntested:
                     part.count(1, key=(par, js, spring, ii, b, name))
-                for hb, e1, e2 in bad:
+                for hb, e1, e2, p in bad:
                     part.violation(KEY_RK4_QUAT if converges(errs2, FLOOR_REL * sc) else "%s momentum drift order < 3 %s" % (name, ident),
-                                   "%s momentum of free-floating tree rooted at body %d: drift(h=%g)=%.3g, drift(h/2)=%.3g ratio %.2f < %g (%s) init %d (%s)" % (
-                                       name, b, hb, e1, e2, e1 / e2, MIN_RATIO, errs2, ii, ident), rp)
+                                   "%s momentum of the free-floating tree rooted at body %d drifts with observed order %.2f < %g: drifts %s for h=%s "
+                                   "init %d (%s)" % (name, b, p, MIN_ORDER, ["%.3g" % e for e in errs2], HS, ii, ident), rp)
 
 
 def run_case(lib, part, par, js, spring, gravity_on):
@@ -445,8 +465,9 @@ def run(ctx):
     ctx.extra["model_variants"] = len(items)
     ctx.rule = ("all rooted ordered forests with <=%d bodies x full product of the joint menu %s x spring variant %s x gravity {on,off}; "
                 "static: covering lattice of <=12 configurations x {zero, mixed} velocity (energy[1], energy[0], force = -grad potential by central "
-                "FD eps=%g); dynamic: %d initial states x h in %s over %g s with RK4, drift ratio e(h)/e(h/2) >= %g whenever e(h) > %g*energy scale; "
+                "FD eps=%g); dynamic: %d initial states x h in %s over %g s with RK4, fitted order of the drift >= log2(%g) over the step sizes whose drift is > %g*energy scale; "
                 "momentum of free-rooted trees sampled every 0.02 s. non-trivial = a case whose drift is above the floor for at least one pair" % (
                     nmax, MENU, SPRINGS, FD_EPS, NINIT[0], HS, HORIZON, MIN_RATIO, FLOOR_REL))
     ctx.assumptions = ["momenta are built from mj_jacBodyCom / xipos / ximat (C07)", "floor-excluded pairs are counted in coverage, not treated as passes",
-                       "ball-spring cut locus (relative angle within 1e-3 of pi) excluded from the gradient test (boundary_excluded)"]
+                       "ball-spring cut locus (relative angle within 1e-3 of pi) excluded from the gradient test (boundary_excluded); runs in which a sprung "
+                       "ball/free joint comes within 0.3 rad of it are excluded from the order test (boundary_excluded_cutlocus)"]
